@@ -7,6 +7,7 @@ from props import pipeline
 from vlib import workload
 
 ASSUMPTIONS = [
+    "per-head yields (kg per pig / chicken, milk per animal) and the meat/milk waste shares are read from the country's row of the input table and from the submitted options, not from the constants the model derives from them (country scale)",
     "independent per-head yield table: chicken KG_MEAT_PER_CHICKEN*1525, pig KG_MEAT_PER_PIG*3590, other small 2.36 kg*1525, other medium 24.6 kg*3590, large 269.7 kg (or the kg_meat_per_large_animal override)*2750 kcal, reduced by distribution waste for meat",
     "milk = milking-herd head count * annual yield/12 * 610 kcal/kg * (1-distribution waste)(1-retail waste), zero when milk is switched off",
     "herd objects are paired with rounds by construction order (round 1, round 2, round 3; round 3 reuses the round-1 herds when round 2 was skipped)",
@@ -17,6 +18,38 @@ KC = {"small": 1525.0, "medium": 3590.0, "large": 2750.0}
 
 def gen_cases(tier, seed):
     return workload.pipeline_grid(tier, seed)
+
+
+_ROWS = {}
+
+
+def independent_inputs(case, inp):
+    """Per-head yields and waste shares taken from the country's row of the input table and from the submitted options
+    (country scale); at global scale the repository's own constants are the only source."""
+    out = dict(inp)
+    iso, opts = case["iso"], case["opts"]
+    if iso == "WOR":
+        return out
+    if not _ROWS:
+        for r in workload.country_table():
+            _ROWS[r["iso3"]] = r
+    row = _ROWS[iso]
+    out["KG_MEAT_PER_CHICKEN"] = float(row["kg_meat_per_chicken"])
+    out["KG_MEAT_PER_PIG"] = float(row["kg_meat_per_pig"])
+    out["MILK_YIELD_KG_PER_MILK_BEARING_ANIMAL_PER_YEAR"] = float(row["milk_yield_kg_per_milk_bearing_animal_per_year"])
+    for k in ("kg_meat_per_chicken", "kg_meat_per_pig", "milk_yield_kg_per_milk_bearing_animal_per_year"):
+        if k in opts:  # option keys that name a column of the row override it (apply_custom_parameters)
+            out[{"kg_meat_per_chicken": "KG_MEAT_PER_CHICKEN", "kg_meat_per_pig": "KG_MEAT_PER_PIG"}.get(k, "MILK_YIELD_KG_PER_MILK_BEARING_ANIMAL_PER_YEAR")] = float(opts[k])
+    w = opts.get("waste")
+    if w == "zero":
+        out["WASTE_DISTRIBUTION"] = dict(inp["WASTE_DISTRIBUTION"], MEAT=0.0, MILK=0.0)
+        out["WASTE_RETAIL"] = 0.0
+    elif w in ("baseline_in_country", "doubled_prices_in_country", "tripled_prices_in_country"):
+        out["WASTE_DISTRIBUTION"] = dict(inp["WASTE_DISTRIBUTION"], MEAT=float(row["distribution_loss_meat"]) * 100, MILK=float(row["distribution_loss_dairy"]) * 100)
+        out["WASTE_RETAIL"] = float(row[{"baseline_in_country": "retail_waste_baseline", "doubled_prices_in_country": "retail_waste_price_double",
+                                         "tripled_prices_in_country": "retail_waste_price_triple"}[w]]) * 100
+    out["ADD_MILK"] = opts.get("cull") == "do_eat_culled"
+    return out
 
 
 def herd_meat_milk(obj, inp, N, opts=None):
@@ -87,7 +120,7 @@ def monitor(tr, case):
         lp = tr.lps[li]
         snap, obj = tr.herds[hi]
         c, t, N = lp.consts, lp.time_consts, lp.N
-        inp = c["inputs"]
+        inp = independent_inputs(case, c["inputs"])
         meat, milk, nspecies = herd_meat_milk(obj, inp, N, case["opts"])
         em = np.asarray(t["each_month_meat_slaughtered"].kcals, float)
         mk = np.asarray(t["milk_kcals"], float)
